@@ -1610,7 +1610,15 @@ impl HasChildren for XmlDocument {
                     .document_element()
                     .map(|v| v.borrow().id() != value.id())
                     .unwrap_or(false);
-                if other {
+                // The document type declaration comes before the document element.
+                let before_doctype = id
+                    .and_then(|reference| self.child_index(reference))
+                    .zip(self.children.borrow().iter().position(|v| {
+                        matches!(&**v, XmlItem::DocumentType(_))
+                    }))
+                    .map(|(at, doctype)| at <= doctype)
+                    .unwrap_or(false);
+                if other || before_doctype {
                     Err(error::Error::InvalidType)
                 } else {
                     add_or_insert(self, value.clone(), id);
